@@ -274,6 +274,20 @@ func FeasibleSucc(b *ssa.BasicBlock, i int) bool {
 	if !ok {
 		return true
 	}
+	if bo, isBin := iff.Cond.(*ssa.BinOp); isBin {
+		// comparison of two nil constants (a variable that is provably nil on this path)
+		cx, okx := bo.X.(*ssa.Const)
+		cy, oky := bo.Y.(*ssa.Const)
+		if okx && oky && cx.IsNil() && cy.IsNil() {
+			switch bo.Op {
+			case token.EQL:
+				return i == 0
+			case token.NEQ:
+				return i == 1
+			}
+		}
+		return true
+	}
 	c, ok := iff.Cond.(*ssa.Const)
 	if !ok || c.Value == nil {
 		return true
